@@ -42,20 +42,68 @@ def b(v):
     return 1 if v in ('1', True) else 0
 
 
+def canon_model_type(t, in_field=False):
+    """a type of the generated namespace in g-ir-generate's vocabulary, without pointer marks (its text has no c:type)"""
+    s = girgen.type_str(t, in_field=in_field)
+    return re.sub(r',ptr=\d', '', s).replace('*', '')
+
+
+def canon_xml_type(parent):
+    """the <type>/<array> child of an element written by g-ir-generate, read as a GIR reader would (girparser.c start_type:
+    an array with neither zero-terminated nor length nor fixed-size is zero-terminated)"""
+    el = None
+    for ch in parent:
+        if ch.tag in (CORE + 'type', CORE + 'array'):
+            el = ch
+            break
+    if el is None:
+        return '?'
+    if el.tag == CORE + 'array':
+        kind = {None: 0, 'GLib.Array': 1, 'GLib.PtrArray': 2, 'GLib.ByteArray': 3}.get(el.get('name'), 9)
+        ln, fx, z = el.get('length'), el.get('fixed-size'), el.get('zero-terminated')
+        if kind == 0:
+            zero = (1 if z == '1' else 0) if z is not None else (0 if (ln is not None or fx is not None) else 1)
+        else:
+            zero, ln, fx = 0, None, None
+        return 'array[%d,zero=%d,len=%s,fixed=%s](%s)' % (kind, zero, ln if ln is not None else -1, fx if fx is not None else -1,
+                                                          canon_xml_type(el))
+    name = el.get('name')
+    if name == 'GLib.List':
+        return 'glist(%s)' % canon_xml_type(el)
+    if name == 'GLib.SList':
+        return 'gslist(%s)' % canon_xml_type(el)
+    if name == 'GLib.HashTable':
+        kids = [ch for ch in el if ch.tag in (CORE + 'type', CORE + 'array')]
+        wrap = lambda k: canon_xml_type([k])
+        return 'ghash(%s)' % ','.join(wrap(k) for k in kids)
+    if name in ('none', 'any'):
+        return 'void'
+    if name == 'GLib.Error':
+        return 'error'
+    if name in BASIC_TAGS:
+        return name
+    return 'iface(%s)' % (name if '.' in name else 'T.' + name)
+
+
+BASIC_TAGS = ('gboolean', 'gint8', 'guint8', 'gint16', 'guint16', 'gint32', 'guint32', 'gint64', 'guint64', 'gfloat', 'gdouble',
+              'GType', 'utf8', 'filename', 'gunichar')
+
+
 def red_callable_xml(el, path, out):
     rv = el.find(CORE + 'return-value')
     if rv is not None:
-        out.append('%s/return transfer=%s null=%d skip=%d' % (path, rv.get('transfer-ownership'),
-                                                             b(rv.get('nullable')) or b(rv.get('allow-none')), b(rv.get('skip'))))
+        out.append('%s/return transfer=%s null=%d skip=%d type=%s' % (path, rv.get('transfer-ownership'),
+                                                                     b(rv.get('nullable')) or b(rv.get('allow-none')), b(rv.get('skip')),
+                                                                     canon_xml_type(rv)))
     ps = el.find(CORE + 'parameters')
     for idx, p in enumerate(ps.findall(CORE + 'parameter') if ps is not None else []):
         d = p.get('direction') or 'in'
         nullable = b(p.get('nullable')) or (b(p.get('allow-none')) if d == 'in' else 0)
         optional = b(p.get('optional')) or (b(p.get('allow-none')) if d != 'in' else 0)
-        out.append('%s/param#%d %s dir=%s transfer=%s null=%d opt=%d calleralloc=%d skip=%d scope=%s closure=%s destroy=%s'
+        out.append('%s/param#%d %s dir=%s transfer=%s null=%d opt=%d calleralloc=%d skip=%d scope=%s closure=%s destroy=%s type=%s'
                    % (path, idx, p.get('name'), d, p.get('transfer-ownership'), nullable, optional,
                       b(p.get('caller-allocates')) if d == 'out' else 0, b(p.get('skip')), p.get('scope') or '-',
-                      p.get('closure') or '-', p.get('destroy') or '-'))
+                      p.get('closure') or '-', p.get('destroy') or '-', canon_xml_type(p)))
 
 
 def red_xml(root):
@@ -100,12 +148,13 @@ def red_xml(root):
 
 def red_callable_model(c, path, out):
     r = c['ret']
-    out.append('%s/return transfer=%s null=%d skip=%d' % (path, r['transfer'], r['nullable'], r['skip']))
+    out.append('%s/return transfer=%s null=%d skip=%d type=%s' % (path, r['transfer'], r['nullable'], r['skip'], canon_model_type(r['type'])))
     for idx, p in enumerate(c['params']):
-        out.append('%s/param#%d %s dir=%s transfer=%s null=%d opt=%d calleralloc=%d skip=%d scope=%s closure=%s destroy=%s'
+        out.append('%s/param#%d %s dir=%s transfer=%s null=%d opt=%d calleralloc=%d skip=%d scope=%s closure=%s destroy=%s type=%s'
                    % (path, idx, p['name'], p['dir'], p['transfer'], p['nullable'], p['optional'],
                       1 if (p['caller_allocates'] and p['dir'] == 'out') else 0, p['skip'], p['scope'] or '-',
-                      '-' if p['closure'] is None else p['closure'], '-' if p['destroy'] is None else p['destroy']))
+                      '-' if p['closure'] is None else p['closure'], '-' if p['destroy'] is None else p['destroy'],
+                      canon_model_type(p['type'])))
 
 
 def red_model(ns):
